@@ -297,6 +297,14 @@ Definition fvalue_typed (d : prop) (fv : fvalue) : bool :=
   | _, _ => false
   end.
 
+(* one value per property of a message *)
+Fixpoint typed_obj (ds : list prop) (fvs : list fvalue) : bool :=
+  match ds, fvs with
+  | [], [] => true
+  | d :: r, v :: s => fvalue_typed d v && typed_obj r s
+  | _, _ => false
+  end.
+
 (* ---- the engine of the correspondence stream --------------------------------- *)
 (* patterns of the form ^[ranges]{n}$ (C20's matcher); anything else does not
    compile — the stream generates only patterns of that form and patterns Go's
